@@ -272,7 +272,7 @@ CHECKS = {
                    "all units held again, one more caller must queue and be served by the next release. "
                    "A real-time stress tier (zero hold, 300 iterations per caller, time-out 1h) must finish without refusals; a run that stops progressing "
                    "with capacity free is classified as stuck (violation), anything else as inconclusive. Exploration.",
-        require=["stress_full_limit_probes", "two_releases_two_parked_cases", "release_at_point_cases/queue.before_push", "release_at_point_cases/blocking.helper_before_lock", "second_phase_probes", "virtual_scenarios_with_more_callers_than_limit_plus_backlog", "virtual_scenarios", "virtual_callers_that_had_to_wait", "virtual_scenarios_reaching_the_limit", "virtual_callers_cancelling_while_queued", "virtual_scenarios_with_colliding_timeouts", "stress_runs", "stress_grants"],
+        require=["stress_full_limit_probes", "release_at_point_cases/slow-inner-release", "two_releases_two_parked_cases", "release_at_point_cases/queue.before_push", "release_at_point_cases/blocking.helper_before_lock", "second_phase_probes", "virtual_scenarios_with_more_callers_than_limit_plus_backlog", "virtual_scenarios", "virtual_callers_that_had_to_wait", "virtual_scenarios_reaching_the_limit", "virtual_callers_cancelling_while_queued", "virtual_scenarios_with_colliding_timeouts", "stress_runs", "stress_grants"],
         rule="virtual scenario = (pool kind, ordering, limit, backlog, callers, per-caller arrival/hold/outcome); stress = (same config, real time); "
              "non-trivial = at least one caller had to wait; distinct = distinct (config, first caller).",
         assumptions=COMMON_ASSUME + ["the bracket counter is incremented after Acquire returned and decremented before completion, so it never over-counts holders"],
